@@ -1,2 +1,40 @@
-(** C06 (placeholder statements are filled in below) *)
-From Coq Require Import List NArith.
+(** C06 — every Add/Write/Close history gives one row group per non-empty batch.
+    Statements only; proofs in PQ.WriterProofs.  [file_bytes compress cfg h] is
+    the file the writer model produces for the call history [h] (then Close);
+    [nonempty_batches h] are the records between consecutive Write calls, the
+    empty ones and the records still pending at Close dropped. *)
+From Coq Require Import List NArith ZArith.
+From PQ Require Import Bytes Schema MetaTypes Writer WriterProofs.
+Import ListNotations.
+
+(** The file depends on the history only through its non-empty written batches. *)
+Theorem C06_file_is_file_of_batches : forall compress cfg h,
+  file_bytes compress cfg h = file_of_batches compress cfg (nonempty_batches h).
+Proof. exact file_bytes_batches. Qed.
+Print Assumptions C06_file_is_file_of_batches.
+
+(** A Write with nothing pending never changes anything. *)
+Theorem C06_empty_write_inert : forall compress cfg h1 h2,
+  file_bytes compress cfg (h1 ++ OpWrite :: OpWrite :: h2) = file_bytes compress cfg (h1 ++ OpWrite :: h2).
+Proof. exact empty_write_inert. Qed.
+Print Assumptions C06_empty_write_inert.
+
+Theorem C06_leading_write_inert : forall compress cfg h,
+  file_bytes compress cfg (OpWrite :: h) = file_bytes compress cfg h.
+Proof. exact leading_write_inert. Qed.
+
+(** Records still pending at Close are not in the file (and not counted). *)
+Theorem C06_pending_at_close_dropped : forall compress cfg h rs,
+  file_bytes compress cfg (h ++ map OpAdd rs) = file_bytes compress cfg h.
+Proof. exact pending_at_close_dropped. Qed.
+Print Assumptions C06_pending_at_close_dropped.
+
+(** One row group per non-empty batch, in order, rows = batch size, and the
+    footer's num_rows is the number of rows stored. *)
+Theorem C06_footer_rows : forall compress cfg bs,
+  let rgs := map (fun b => snd (write_batch compress cfg b)) bs in
+  length (fm_row_groups (footer_meta cfg rgs)) = length bs /\
+  map rg_num_rows (fm_row_groups (footer_meta cfg rgs)) = map (fun b => Z.of_nat (length b)) bs /\
+  fm_num_rows (footer_meta cfg rgs) = Z.of_nat (length (concat bs)).
+Proof. exact footer_truthful. Qed.
+Print Assumptions C06_footer_rows.
